@@ -89,6 +89,9 @@ class World:
                 var = int(var or 0)
                 upd = {self.name: {'payload': k}}
                 if kind == 'done':
+                    if var % 4 == 1:
+                        # a task that returns its whole (previous) entry, clocks included
+                        upd[self.name].update(start_clock=0.0, end_clock=0.0)
                     return upd, TaskStatus.DONE
                 if kind == 'intstatus':
                     return upd, 3
@@ -333,8 +336,11 @@ def run_history(world, case):
             persisted = pickle.loads(pickle.dumps(env))
             for t in case['runs'][irun + 1].get('lost', []):
                 persisted.dictionary.pop(f't{t}', None)
-            env = Env()
-            env.merge_done_tasks(persisted)
+            if case['runs'][irun + 1].get('carry') == 'unpickled':
+                env = persisted      # the unpickled environment itself, stale statuses included
+            else:
+                env = Env()
+                env.merge_done_tasks(persisted)
     return results
 
 
